@@ -131,7 +131,10 @@ def run_data_case(ctx, fe, verdict, L, t_data, lat, await_at=0, implicit=False, 
                     await asyncio.sleep(lat / 1000)
                 vlog.append(('ret', S.now_ms()))
                 return give(fe, verdict)
-            coro = the_app.express_interest(iname, validator=as_object(validator) if falsy_obj else validator, lifetime=L, nonce=1)
+            # (asking for the raw packet as well is no input of validation)
+            CT_SEQ[0] += 1
+            coro = the_app.express_interest(iname, validator=as_object(validator) if falsy_obj else validator, lifetime=L, nonce=1,
+                                            need_raw_packet=(CT_SEQ[0] % 3 == 0))
 
         async def waiter():
             if await_at:
@@ -263,7 +266,7 @@ def check_data_multi(ctx, rng):
                             if sp['lat']:
                                 await asyncio.sleep(sp['lat'] / 1000)
                             return sp['verdict']
-                        coro = the_app.express_interest(nm, validator=v, lifetime=1000, can_be_prefix=sp['parent'], nonce=10 + j)
+                        coro = the_app.express_interest(nm, validator=v, lifetime=1000, can_be_prefix=sp['parent'], nonce=10 + j, need_raw_packet=(j % 2 == 1))
 
                     async def waiter(j=j, coro=coro):
                         try:
@@ -675,12 +678,76 @@ def check_validator_in_force(ctx, rng):
                            'shorter prefix, whose own validator in force never accepted it', w)
 
 
+def check_route_before_connect(ctx, rng):
+    """Routes declared with their own validator BEFORE the application connects (registered by the start-up task) obey that
+    validator exactly as routes declared on a running application do."""
+    from .c17 import Forwarder
+    for fe in ('v2', 'v1'):
+        for rep in range(ctx.n(3, 60)):
+            log = []
+
+            async def main(S):
+                face = RecFace()
+                the_app = appv2.NDNApp(face=face) if fe == 'v2' else appv1.NDNApp(face=face, keychain=KeychainDigest())
+                Forwarder(face, fe, ['200'], ctx, rng, S)
+
+                def handler(hid):
+                    if fe == 'v2':
+                        return lambda n, p, reply, c: log.append(('h', hid, tuple(bytes(x) for x in n)))
+                    return lambda n, p, a: log.append(('h', hid, tuple(bytes(x) for x in n)))
+
+                def validator(vid, accept):
+                    if fe == 'v2':
+                        async def v(n, sig, c):
+                            log.append(('v', vid, tuple(bytes(x) for x in n)))
+                            return types.ValidResult.PASS if accept else types.ValidResult.FAIL
+                    else:
+                        async def v(n, sig):
+                            log.append(('v', vid, tuple(bytes(x) for x in n)))
+                            return accept
+                    return v
+                PR, PA = [C(b'early'), C(b'strict%d' % rep)], [C(b'early'), C(b'open%d' % rep)]
+                the_app.route(PR, validator=validator('early-rejects', False))(handler('early-strict'))
+                the_app.route(PA, validator=validator('early-accepts', True))(handler('early-open'))
+                out = {}
+
+                async def after():
+                    await asyncio.sleep(0.2)
+                    LR = [C(b'late'), C(b'strict%d' % rep)]
+                    the_app.route(LR, validator=validator('late-rejects', False))(handler('late-strict'))
+                    await asyncio.sleep(0.2)
+                    for key, pre in (('er', PR), ('ea', PA), ('lr', LR)):
+                        wire = build_interest(rng, pre, 1, 'nonempty', rng.choice(['hmac', 'ecdsa']), 'ok')
+                        out[key] = tuple(rc.strict_interest(wire)['name'])
+                        await face.deliver(wire)
+                        await asyncio.sleep(0.1)
+                    the_app.shutdown()
+                await the_app.main_loop(after())
+                log.append(('names', out))
+            S = vtime.run(main)
+            w = {'frontend': fe, 'log': [(x[0], x[1], [c.hex() for c in x[2]]) for x in log if x[0] != 'names']}
+            ctx.case(('route-before-connect', fe, rep), nontrivial=True)
+            ctx.event('route-declared-before-connecting')
+            if S.result != 'ok':
+                ctx.report(f'route-before-connect-{S.result}:{fe}', f'{S.error!r}', w)
+                continue
+            names = [x for x in log if x[0] == 'names'][0][1]
+            if ('h', 'early-strict', names['er']) in log or ('v', 'early-rejects', names['er']) not in log:
+                ctx.report(f'route-declared-before-connecting-ignores-its-validator:{fe}', 'a signed Interest under a route declared (with a rejecting validator) before the application connected '
+                           'reached its handler / was not shown to that validator', w)
+            if ('h', 'late-strict', names['lr']) in log:
+                ctx.report(f'delivered-despite-verdict:{fe}', 'a signed Interest reached the handler of a route whose validator rejects', w)
+            if ('h', 'early-open', names['ea']) not in log:
+                ctx.event('observation:accepted-signed-interest-not-delivered')
+
+
 def run(ctx):
     ctx.rule = RULE
     rng = ctx.rng
     check_data_side(ctx, rng)
     check_data_multi(ctx, rng)
     check_validator_in_force(ctx, rng)
+    check_route_before_connect(ctx, rng)
     if ctx.shard == 0:
         check_interest_side(ctx, rng)
     need = ['validator-is-a-falsy-callable-object', 'data-fetched-by-full-name', 'validator-in-force-history', 'multi-interest-data', 'data-awaited-later-than-expressed', 'data-validator-raised', 'data-before-deadline', 'data-after-deadline', 'data-at-deadline', 'payload-returned', 'validation-failure', 'timeout']
